@@ -158,25 +158,28 @@ Qed.
 
 (* ---- delimiters: blank, newline, closing parenthesis / bracket ---- *)
 
-Definition delim (d : Z) : Prop := d = 32 \/ d = 10 \/ d = 41 \/ d = 93.
+Definition delim (d : Z) : Prop := d = 32 \/ d = 10 \/ d = 41 \/ d = 93 \/ d = 125.
 Definition dtok (d : Z) : list token :=
-  if d =? 41 then [mkTok TRParen []] else if d =? 93 then [mkTok TRSquare []] else [].
+  if d =? 41 then [mkTok TRParen []] else if d =? 93 then [mkTok TRSquare []]
+  else if d =? 125 then [mkTok TRCurly []] else [].
 
 (* what LexNextRune does with a delimiter in normal mode, after dumpBuffer *)
 Definition after_delim (d : Z) (s : lstate) : lstate :=
   if d =? 41 then append_token (mkTok TRParen []) s
-  else if d =? 93 then append_token (mkTok TRSquare []) s else s.
+  else if d =? 93 then append_token (mkTok TRSquare []) s
+  else if d =? 125 then append_token (mkTok TRCurly []) s else s.
 
 Lemma view_after_delim : forall d s m b t p, view s m b t p -> view (after_delim d s) m b (t ++ dtok d) p.
 Proof.
   intros. unfold after_delim, dtok. destruct (d =? 41); [apply view_append_token; assumption|].
-  destruct (d =? 93); [apply view_append_token; assumption|]. rewrite app_nil_r; assumption.
+  destruct (d =? 93); [apply view_append_token; assumption|].
+  destruct (d =? 125); [apply view_append_token; assumption|]. rewrite app_nil_r; assumption.
 Qed.
 
 Lemma lex_normal_delim : forall d s, delim d ->
   lex_normal s d = with_dump (if d =? 10 then set_linenum (l_linenum s + 1) s else s) (fun s1 => LOk (after_delim d s1)).
 Proof.
-  intros d s [H|[H|[H|H]]]; subst d; reflexivity.
+  intros d s [H|[H|[H|[H|H]]]]; subst d; reflexivity.
 Qed.
 
 Lemma step_delim : forall s b t p d tok, delim d -> b <> [] -> decode_atom b = Some tok -> view s LNormal b t p ->
@@ -416,6 +419,39 @@ Proof.
   rewrite lex_normal_plain by assumption.
   eexists; split; [reflexivity|].
   apply (view_write_rune _ _ [] _ _ c). apply view_append_token. eapply view_set_state. eassumption.
+Qed.
+
+(* ---- the colon after a hash key: k:v and "s":v ---- *)
+
+Lemma step_colon : forall s b t p, view s LNormal b t p ->
+  exists s1, lex_rune s 58 = LOk s1 /\ view s1 LFreshAssignOrColon b t 58.
+Proof.
+  intros s b t p V. rewrite lex_rune_normal by apply V.
+  apply (push_view _ _ _ _ _ 58) in V. apply pview_view in V.
+  eexists; split; [reflexivity|]. eapply view_set_state. eassumption.
+Qed.
+
+Lemma lex_rune_fresh : forall s r, l_state s = LFreshAssignOrColon -> lex_rune s r = lex_freshassign (ring_push r s) r.
+Proof. intros s r H. dst s; prj. subst st. reflexivity. Qed.
+
+(* the rune after the colon is not '=': the key (with its colon) is dumped as one atom and the rune is then
+   lexed as if the lexer stood between tokens right after the colon *)
+Lemma colon_then : forall s b t r tok, view s LFreshAssignOrColon b t 58 -> r <> 61 ->
+  slice_bound b = false -> decode_atom (b ++ [58]) = Some tok ->
+  exists s', view s' LNormal [] (t ++ [tok]) 58 /\ lex_rune s r = lex_rune s' r.
+Proof.
+  intros s b t r tok V Hr Hsb Hdec.
+  exists (append_token tok (set_buffer [] (set_state LNormal s))). split.
+  - apply view_append_token. eapply view_set_buffer. eapply view_set_state. eassumption.
+  - rewrite lex_rune_fresh by apply V. unfold lex_freshassign.
+    replace (r =? 61) with false by (symmetry; apply Z.eqb_neq; assumption).
+    assert (l_buffer (set_state LNormal (ring_push r s)) = b) as Eb by (destruct V as [_ V2 _ _ _]; dst s; exact V2).
+    rewrite Eb, Hsb. unfold with_dump, dump_buffer.
+    assert (l_buffer (write_rune 58 (set_state LNormal (ring_push r s))) = b ++ [58]) as Eb2
+      by (destruct V as [_ V2 _ _ _]; dst s; prj; simpl in V2; subst; reflexivity).
+    rewrite Eb2. destruct (b ++ [58]) as [|x l] eqn:E; [destruct b; discriminate|]. rewrite Hdec.
+    rewrite lex_rune_normal by (dst s; reflexivity).
+    reflexivity.
 Qed.
 
 (* ======== Part 2: regex facts ======== *)
